@@ -212,6 +212,9 @@ class BigEdge:
         :rtype: list
         """
         vobject = self.get_vertex_object_by_id(vid)
+        if method == "edge" and len(self.vertices) < 3:
+            # a circle through two points is not unique: use the straight line
+            return np.array(self.get_straight_edge_versor_from_vid(vid))
         if method == "edge":
             xc, yc = ve.calculate_circle_center(self.vertices, method=fit_method)
         elif method == "cell" and cell:
